@@ -41,7 +41,7 @@ def acts_to_units(acts):
     for a in acts:
         n = a.get("name")
         if n == "Send":
-            steps.append({"a": "Send", "ch": a["ch"], "len": a["len"]})
+            steps.append({"a": "Send", "ch": a["ch"], "len": a["len"], "nil": bool(a.get("nilrep", False))})
         elif n == "SendPacket":
             steps.append({"a": "SendPacket", "ch": 0, "len": 0})
         elif n == "Recv" and a.get("k") == "h":
@@ -66,6 +66,19 @@ def graph_units(ctx, cfg, label, timeout):
         if pk:
             hostile.append({"src": label, "pkts": pk})
     return r, len(g.nodes), scheds, hostile
+
+
+def rep_variants(units):
+    """Every schedule with zero-length sends also in the variants 'all of them nil slices' and 'all of them
+    empty non-nil slices' (the representation is the caller's choice: TMMConnSys!Send, nilrep)."""
+    out = []
+    for u in units:
+        out.append(u)
+        if any(s["a"] == "Send" and s["len"] == 0 for s in u["steps"]):
+            for z in (True, False):
+                out.append({"src": u["src"], "steps": [dict(s, nil=z) if s["a"] == "Send" and s["len"] == 0 else s
+                                                        for s in u["steps"]]})
+    return out
 
 
 def dedup(units, key):
@@ -200,7 +213,7 @@ def conn_half(ctx, verdict, cov, quick):
             st, _ = acts_to_units([s["act"] for _h, s in beh[1:] if "act" in s])
             if st:
                 sim_s.append({"src": "sim", "steps": st})
-    scheds = attack_s + dedup(g_s, "steps") + dedup(sim_s, "steps")
+    scheds = dedup(rep_variants(attack_s + dedup(g_s, "steps") + dedup(sim_s, "steps")), "steps")
     hostile = attack_h + dedup(g_h, "pkts")
 
     # ---- 3. replay on real MConnections
@@ -235,6 +248,8 @@ def conn_half(ctx, verdict, cov, quick):
         "deliver_graph_states_replayed": gstates, "deliver_graph_schedules": len(dedup(g_s, "steps")),
         "hostile_graph_states_replayed": hstates, "hostile_graph_schedules": len(dedup(g_h, "pkts")),
         "simulated_behaviours_replayed": len(dedup(sim_s, "steps")),
+        "lockstep_schedules_incl_zero_length_representation_variants": len(scheds),
+        "lockstep_schedules_with_a_nil_slice_send": sum(1 for u in scheds if any(s.get("nil") for s in u["steps"])),
         "attack_schedules_from_weakened_specs": len(attack_s) + len(attack_h),
         "random_lockstep_runs": inp["random"], "concurrent_runs": inp["concurrent"], "random_hostile_runs": inp["hrandom"],
         "events": len(rows), "process_crashes": crashes,
@@ -322,7 +337,7 @@ def replay(ctx, path):
         steps = []
         for r in prefix[1:]:
             if r["ev"] == "Send":
-                steps.append({"a": "Send", "ch": r["ch"], "len": len(r["m"])})
+                steps.append({"a": "Send", "ch": r["ch"], "len": len(r["m"]), "nil": bool(r.get("nil", False))})
             elif r["ev"] == "Step":
                 steps.append({"a": "SendPacket", "ch": 0, "len": 0})
             elif r["ev"] == "Sync":
